@@ -638,6 +638,22 @@ func Draw(t *rapid.T, face int, o Opts) Case {
 			MaxLen: maxLen - len(c.Text), FontPool: textgen.FontRunes(f.Face.Font, FontPoolSize), Scripts: scripts, Hostile: 12, NoInvalid: o.ValidOnly,
 		})...)
 	}
+	if s.Intn("markstacks", 6) == 0 {
+		// stacks of several marks of one script on a base of that script (canonical and
+		// script-specific mark reordering, mark-to-mark attachment, cluster merging of moved marks)
+		names := scripts
+		if len(names) == 0 {
+			names = textgen.ScriptNames
+		}
+		for k := 1 + s.Intn("nstacks", 2); k > 0; k-- {
+			stack := markStack(s, names[s.Intn("stackscript", len(names))])
+			if len(stack) == 0 || len(c.Text)+len(stack) > maxLen {
+				continue
+			}
+			at := s.Intn("stackat", len(c.Text)+1)
+			c.Text = append(c.Text[:at:at], append(stack, c.Text[at:]...)...)
+		}
+	}
 	if o.Spacing && len(c.Text) > 0 && s.Intn("separators", 3) == 0 {
 		// C12: make sure the documented word separators (not only U+0020) occur
 		for k := 1 + s.Intn("nsep", 3); k > 0 && len(c.Text) < maxLen; k-- {
@@ -651,6 +667,37 @@ func Draw(t *rapid.T, face int, o Opts) Case {
 	}
 	Params(s, &c, info, o)
 	return c
+}
+
+var (
+	alphabetMarksOnce sync.Once
+	alphabetMarks     map[string][]rune
+	alphabetBases     map[string][]rune
+)
+
+// markStack returns a base of the script followed by 2..4 marks of the same script's alphabet.
+func markStack(s Source, script string) []rune {
+	alphabetMarksOnce.Do(func() {
+		alphabetMarks, alphabetBases = map[string][]rune{}, map[string][]rune{}
+		for name, rs := range textgen.Alphabets {
+			for _, r := range rs {
+				if unicode.Is(unicode.M, r) {
+					alphabetMarks[name] = append(alphabetMarks[name], r)
+				} else if unicode.IsLetter(r) {
+					alphabetBases[name] = append(alphabetBases[name], r)
+				}
+			}
+		}
+	})
+	ms, bs := alphabetMarks[script], alphabetBases[script]
+	if len(ms) == 0 || len(bs) == 0 {
+		return nil
+	}
+	out := []rune{bs[s.Intn("stackbase", len(bs))]}
+	for k := 2 + s.Intn("stackmarks", 3); k > 0; k-- {
+		out = append(out, ms[s.Intn("stackmark", len(ms))])
+	}
+	return out
 }
 
 // ---- generated fonts ----
